@@ -76,6 +76,7 @@ def strategy_(draw, tier):
         "ser_target": pick(draw, ["int", "str", "list_int", "point"]),
         "inherited": pick(draw, [None, None, True, False]),
         "chain": chance(draw, 0.2),
+        "conv_object": chance(draw, 0.4),
     }
     if prog["nest"] == "bare" and prog["placement"] in ("registered", "dynamic", "field") and chance(draw, 0.35):
         # constraints given from outside the converted type (per-call schema= / field schema): they constrain the source data
@@ -230,7 +231,8 @@ def render(p) -> str:
     body = {"int": "w.payload", "str": "'s' + str(w.payload)", "list_int": "[w.payload, w.payload + 1]", "point": "Point(w.payload, 'p')"}[p["ser_target"]]
     lines += [f"def g(w: W) -> {ute}:", f"    return {body}", ""]
     inh = "" if p["inherited"] is None else f", inherited={p['inherited']}"
-    lines.append(f"G = Conversion(g{inh})" if inh else "G = g")
+    # the serializer is given as a function, or as a Conversion object (whose `inherited` defaults to None = inherited)
+    lines.append(f"G = Conversion(g{inh})" if (inh or p.get("conv_object")) else "G = g")
     lines.append("DESER = (" + "".join(c + ", " for c in convs) + ")")
     if p["placement"] == "registered":
         lines += [f"deserializer({c})" for c in convs] + ["serializer(G)"]
